@@ -27,6 +27,7 @@ REGISTRY = {
     'cont': {'*': [dict(kind='egg', file='replays/cont/nested_containers.egg'), dict(kind='egg', file='replays/cont/nested_containers.egg', args=('--naive',)),
                    dict(kind='egg', file='replays/cont/incremental_container_rebuild.egg'),
                    dict(kind='egg', file='replays/cont/map_keys_of_container_sort.egg'),
+                   dict(kind='egg', file='replays/cont/container_element_positions.egg'),
                    dict(kind='egg', file='replays/cont/merged_container_parent_refresh.egg'),
                    dict(kind='egg', file='replays/cont/merged_container_parent_refresh.egg', args=('-j', '4')),
                    dict(kind='egg', file='replays/cont/nested_containers.egg', args=('-j', '4'))]},
